@@ -96,19 +96,17 @@ def h_hist(t, part):
         elif op == 'ack':
             # an ACK / BINARY_ACK from transport e on namespace ns with an arbitrary id
             pal = o[3]
-            if pal == 0:
+            if pal in (0, 1):
                 i = t.int(0, part['n'])       # 0, every id that can have been issued so far
-            elif pal == 1:
-                i = BIG                       # never issued
             else:
-                i = 0                         # through the real text codec
+                i = 0 if step % 2 == 0 else BIG    # through the real text codec: id 0 / a never issued huge id
             binary = pal == 1
             data = [t.int(-2, 2)] if pal == 0 else [t.int(-2, 2), 7] if pal == 1 else []
             before = snap(w)
             nfired = len(fired)
             ncont = len(w.eio.contained)
             if pal == 2:
-                w.send(e, w.P(packet.ACK, data=data, namespace=ns, id=0))
+                w.send(e, w.P(packet.ACK, data=data, namespace=ns, id=i))
             else:
                 frame = w.P.inject(type=packet.BINARY_ACK if binary else packet.ACK, namespace=ns, id=i, data=data,
                                    count=1 if binary else 0)
